@@ -358,7 +358,7 @@ def count_cases(ctx, rnd, cs, quick):
             if len(flat) != len(leaves) or any(tuple(arr(p).shape) != (N, 4) for p in flat):
                 bad("C.count", "generate_phsp returned shapes %r" % [tuple(arr(p).shape) for p in flat], inp)
                 continue
-            for ev in (0, N - 1):
+            for ev in sorted(set((0, N - 1))):
                 f = output_checks(ctx, cs, "nest%d_%d_%d" % (ni, N, ev), m0, leaves, flat, ev, {"function": "generate_phsp", "input": inp}, coq=(ev == 0), tol=tol_sum())
                 for x in f:
                     bad("O.event", x, dict(inp, event=ev))
